@@ -51,7 +51,7 @@ if [ "$confirmed" = yes ]; then
     git -C /repo apply "$DST/patch.diff" || { echo "cannot apply to /repo"; exit 2; }
   fi
   for C in "$PROP" "$@"; do
-    out=$(cd /verif && timeout 1500 bin/check $C --no-evidence 2>&1 | grep -E "^(VIOLATION|INCONCLUSIVE|OK|KNOWN)" | head -4)
+    out=$(cd "${VERIF_SNAP:-/verif}" && timeout 1500 bin/check $C --no-evidence 2>&1 | grep -E "^(VIOLATION|INCONCLUSIVE|OK|KNOWN)" | head -4)
     rc=$(echo "$out" | grep -c '^VIOLATION')
     echo "=== check $C:"; echo "$out" | cut -c1-300
     if [ "$rc" -gt 0 ]; then results="$results $C:caught"; elif echo "$out" | grep -q '^INCONCLUSIVE'; then results="$results $C:inconclusive"; else results="$results $C:missed"; fi
